@@ -368,13 +368,19 @@ def relationOf (x y : List V) (kx ky : String) : String :=
 
 /-! ## cases -/
 
+/-- a case is dropped when it reaches a pinned panic, or when a `where`/`=>` body leaves the modelled
+first-order fragment (`<` or `+` on non-numbers, `.a` on a set): there the model has no prediction -/
 def mkCase (id stratum : String) (e : E) : Option Case :=
   let s := Spec.eval e
-  match s with
-  | .panic => none
-  | _ =>
-    some { id := id, cls := classOf e, kind := "eval", stratum := stratum,
-           model := obsI (Impl.eval e), spec := obsV s, payload := [e.src] }
+  let m := Impl.eval e
+  let cls := classOf e
+  match s, m with
+  | .panic, _ => none
+  | _, .unspec => if cls == "good" then none else
+      some { id := id, cls := cls, kind := "eval", stratum := stratum, model := obsI m, spec := obsV s, payload := [e.src] }
+  | _, _ =>
+    some { id := id, cls := cls, kind := "eval", stratum := stratum,
+           model := obsI m, spec := obsV s, payload := [e.src] }
 
 /-- the observables of a set-valued program: canon, count, three `<:` probes -/
 def observe (id stratum : String) (e : E) (probes : Bool) : Gen (List Case) := do
@@ -486,10 +492,12 @@ def genProgram (idx : Nat) : Gen (List Case) := do
     let n : E := .lit (← pick [numL 1, .tup [("a", numL 1)], charL 0 97])
     let op ← pick (setOps ++ [.with_, .without])
     let r ← rand 3
+    let c ← pick [CmpOp.sub, CmpOp.sube, CmpOp.comp, CmpOp.compe, CmpOp.nsup]
+    let sw ← chance 1 2
     let e : E := match r with
       | 0 => .bin op n a
       | 1 => if op == .with_ || op == .without then .count n else .bin op a n
-      | _ => .pow n
+      | _ => if sw then .pow n else (if op == .union then .cmp c n a else .cmp c a n)
     observe id "ill-typed" e false
 
 /-! ## corpus: witnesses of the repaired defects and of the known findings, minimised past failures -/
@@ -534,8 +542,14 @@ def corpusExprs : List (String × E) :=
     ("kf-bytes-holes-has", .cmp .mem (.lit (byteL 0 1))
         (.bin .union (.bin .without (bytes [1, 2, 3]) (.lit (byteL 1 2))) (.lit (.bytes 5 [7])))),
     ("kf-bytes-set-literal", .lit (.set [byteL 0 1, byteL 2 3])),
-    ("kf-range-byte", .cmp .mem (.lit (byteL 0 300)) (bytes [44])),
-    ("kf-range-char", .count (.bin .with_ (s "ab") (.lit (pairL "@char" (numL 1) (numL (-1)))))),
+    ("range-byte", .cmp .mem (.lit (byteL 0 300)) (bytes [44])),
+    ("range-char", .count (.bin .with_ (s "ab") (.lit (pairL "@char" (numL 1) (numL (-1)))))),
+    ("range-char-union", .bin .union (.lit (.set [pairL "@char" (numL 0) (numL (-1))])) (s "ab")),
+    ("range-byte-set", .count (.lit (.set [byteL 0 300, byteL 0 44]))),
+    -- Relation.With takes a specialisable tuple into a relation of heading (@, @char)
+    ("kf-relwith", .bin .with_ (.lit (.set [pairL "@char" (numL 0) (numL (-1))])) (.lit (charL 1 97))),
+    ("kf-relwith-has", .cmp .mem (.lit (charL 1 97))
+        (.bin .union (.bin .with_ (.lit (.set [pairL "@char" (numL 0) (numL (-1))])) (.lit (charL 1 97))) (.lit (.str 2 [120])))),
     -- power set, subset family, true/empty
     ("pow-str", .pow (s "ab")),
     ("pow-true", .pow (.lit .tt)),
@@ -550,9 +564,9 @@ def corpus : List Case :=
 
 /-- fractional indices cannot be written in `V`: fixed source text with the expected canon -/
 def rawCorpus : List Case :=
-  [ { id := "C01-corpus-frac-char", cls := "KF-tuple-specialise-range", kind := "eval", stratum := "corpus",
+  [ { id := "C01-corpus-frac-char", cls := "good", kind := "eval", stratum := "corpus",
       model := "{(@:1.5,@char:97)}", spec := "{(@:1.5,@char:97)}", payload := ["{(@: 1.5, @char: 97)}"] },
-    { id := "C01-corpus-frac-char-has", cls := "KF-tuple-specialise-range", kind := "eval", stratum := "corpus",
+    { id := "C01-corpus-frac-char-has", cls := "good", kind := "eval", stratum := "corpus",
       model := "{}", spec := "{}", payload := ["((@: 1.5, @char: 98) <: 'abc')"] } ]
 
 /-! ## exhaustive pairs from a fixed pool (thorough tier) -/
